@@ -851,7 +851,7 @@ class Interp(Ops, B.BuiltinsMixin):
                 continue
 
     def is_symbolic_iterable(self, it):
-        return isinstance(it, (SymSeq, SymMap)) or (isinstance(it, NdArr) and it.data is None) \
+        return isinstance(it, (SymSeq, SymMap, SymSet)) or (isinstance(it, Obj) and it.tag == 'symmap_keys') or (isinstance(it, NdArr) and it.data is None) \
             or (isinstance(it, Obj) and it.tag == "range" and not all(isinstance(x, int) for x in it.fields["args"]))
 
     def sym_loop(self, s, fr, spec: LoopSpec, key, it):
